@@ -134,6 +134,22 @@ MUTANTS = [
      "            b = Some(self.get(self.length - 1));\n            self.set(self.length - 1, Bit::Zero);\n            self.length -= 1;",
      "            b = Some(self.get(self.length - 1));\n            self.length -= 1;",
      {"C03": ("SHRINK", "pop"), "C07": ("SHRINK", "pop")}),
+    ("M31-zero-divisor-debug-assert", "src/fixed.rs",
+     "        assert!(!divisor.is_zero(), \"Division by zero\");\n        let mut rem = *self;",
+     "        debug_assert!(!divisor.is_zero(), \"Division by zero\");\n        let mut rem = *self;",
+     {"C02": ("GUARD-ZERO", "<Bvf<I, N> as BitVector>::div_rem")}),
+    ("M32-bvd-new-debug-assert", "src/dynamic.rs",
+     "        assert!(length <= data.len() * Self::BIT_UNIT);\n        Self { data, length }",
+     "        debug_assert!(length <= data.len() * Self::BIT_UNIT);\n        Self { data, length }",
+     {"C18": ("GUARD-RESERVE", "Bvd::new")}),
+    ("M33-int-len-rounds-down", "src/fixed.rs",
+     "        (self.length + size_of::<J>() * 8 - 1) / (size_of::<J>() * 8)\n    }\n\n    fn get_int<J: Integer>(&self, idx: usize) -> Option<J>\n    where\n        I: StaticCast<J>,",
+     "        self.length / (size_of::<J>() * 8) + 1\n    }\n\n    fn get_int<J: Integer>(&self, idx: usize) -> Option<J>\n    where\n        I: StaticCast<J>,",
+     {"C12": ("DEFS", "int_len"), "C03": ("DEFS", "int_len")}),
+    ("M34-accessor-mask-off-by-one-word", "src/dynamic.rs",
+     "                .map(|v| v & J::mask(self.length - idx * J::BITS))",
+     "                .map(|v| v & J::mask(self.length - idx * J::BITS + 1))",
+     {"C12": ("DEFS", "get_int"), "C09": ("DEFS", "get_int")}),
     ("M30-bv-hash-branches-on-mode", "src/auto.rs",
      "        for i in 0..(self.significant_bits() + 63) / 64 {\n            self.get_int::<u64>(i).unwrap().hash(state);\n        }",
      "        match self {\n            Bv::Fixed(b) => b.hash(state),\n            Bv::Dynamic(b) => b.hash(state),\n        }",
